@@ -109,7 +109,7 @@ func mentionsDecodeConfig(v ssa.Value, seen map[ssa.Value]bool, d int) bool {
 func init() {
 	Register(&Rule{ID: "CACHESAFE", Props: []string{"C11"}, Min: 1,
 		Doc: "every value a NodeCache constructor of package mast returns is built by a constructor of github.com/hashicorp/golang-lru itself (whose caches lock internally; not its simplelru sub-package), " +
-			"or is a type of the repository whose Add, Contains and Get each take a sync mutex of the receiver before anything else.",
+			"or is a type of the repository whose Add, Contains and Get each take the exclusive lock of a sync mutex of the receiver before anything else (a read lock does not do: an LRU lookup reorders the recency list).",
 		Run: runCACHESAFE})
 }
 
@@ -193,9 +193,8 @@ func runCACHESAFE(c *Ctx) {
 						if _, isLock := syncCall(ci, "RWMutex", "Lock"); isLock {
 							locked = true
 						}
-						if _, isLock := syncCall(ci, "RWMutex", "RLock"); isLock && mn != "Add" {
-							locked = true
-						}
+						// (a read lock does not do: an LRU lookup moves the entry to the front of the recency list —
+						// Get, and in some implementations Contains, write)
 						break // the first call decides
 					}
 				}
